@@ -1892,7 +1892,7 @@ func c03GlobErr(sys fs.FS, pkg string) bool {
 // c03OddImports: import clauses with the paths the loader treats specially
 func c03OddImports(r *rng) string {
 	odd := []string{`""`, `"."`, `".."`, `"/"`, `"/lib"`, `"lib/"`, `"./lib"`, `"a/../lib"`, `"lib//"`, `"lib\\"`, `"a\\b"`, `"["`, `"lib["`, `"a[b]"`, `"[]"`, `"[a-"`,
-		`"\\"`, `"*"`, `"?"`, `"li*"`, `"\x00"`, `"vendor/ven"`, `"ven"`, `"lib"`, `"fmt"`, `"lib/lib.go"`, `"//"`, `"\400"`, `"\ud800"`, "`lib`", "`li[b`", `"cyc1"`, `"bad"`, `"conf"`, `"badalias"`, `"rt"`}
+		`"\\"`, `"*"`, `"?"`, `"li*"`, `"\x00"`, `"vendor/ven"`, `"ven"`, `"lib"`, `"fmt"`, `"lib/lib.go"`, `"//"`, `"\400"`, `"\ud800"`, "`lib`", "`li[b`", `"cyc1"`, `"bad"`, `"conf"`, `"badalias"`, `"rt"`, `"starpkg"`, `"amppkg"`}
 	var sb strings.Builder
 	switch r.intn(3) {
 	case 0:
